@@ -500,8 +500,11 @@ int run_check(const std::string &prop, int tier, uint64_t master, int jobs) {
         Case c = d->gen(cs, tier);
         c.seed = cs;
         Ctx ctx; ctx.st = &st; ctx.tier = tier;
+        double tc0 = now_s();
         Verdict v = d->eval(c, ctx);
         st.inc("cases");
+        if (const char *sl = getenv("VERIF_SLOWLOG")) { double ms = (now_s() - tc0) * 1000; if (ms >= atof(sl)) fprintf(stderr, "slow case %llu: %.0f ms (%s)\n", (unsigned long long)i, ms, c.data_desc.c_str()); }
+        if (const char *dc = getenv("VERIF_DUMPCASE")) if (strtoull(dc, 0, 10) == i) { std::string pth = replay_path(prop, master, i) + ".dump"; write_file(pth, case_to_text(c, v, ctx.hash)); fprintf(stderr, "case %llu written to %s\n", (unsigned long long)i, pth.c_str()); }
         if (hlog) fprintf(hlog, "%llu %016llx %s\n", (unsigned long long)i, (unsigned long long)ctx.hash, v.ok() ? "ok" : v.cls.c_str());
         if (v.ok()) continue;
         // in-process determinism gate: same class and same history hash
